@@ -121,16 +121,16 @@ func searchFieldId(p *binary.BinaryProtocol, id proto.FieldNumber, messageLen in
 // packed: if idx is found, return the element[V] value start position, otherwise return the end of p.Buf
 // unpacked: if idx is found, return the element[TLV] tag position, otherwise return the end of p.Buf
 func searchIndex(p *binary.BinaryProtocol, idx int, elementWireType proto.WireType, isPacked bool, fieldNumber proto.FieldNumber) (int, error) {
-	// packed list
+	if idx < 0 {
+		return 0, errNode(meta.ErrInvalidParam, "searchIndex: negative index.", nil)
+	}
 	cnt := 0
-	result := p.Read
 	if isPacked {
-		// read length
+		// packed list: [tag][length][value][value]..., the tag has been consumed by the caller
 		length, err := p.ReadLength()
 		if err != nil {
 			return 0, err
 		}
-		// read list
 		start := p.Read
 		for p.Read < start+length && cnt < idx {
 			if err := p.Skip(elementWireType, false); err != nil {
@@ -138,38 +138,37 @@ func searchIndex(p *binary.BinaryProtocol, idx int, elementWireType proto.WireTy
 			}
 			cnt++
 		}
-		result = p.Read
-	} else {
-		// normal Type : [tag][(length)][value][tag][(length)][value][tag][(length)][value]....
-		for p.Read < len(p.Buf) && cnt < idx {
-			// don't move p.Read and judge whether readList completely
-			if err := p.Skip(elementWireType, false); err != nil {
-				return 0, errNode(meta.ErrRead, "searchIndex: skip unpacked list element error.", err)
-			}
-			cnt++
-			if p.Read < len(p.Buf) {
-				// don't move p.Read and judge whether readList completely
-				elementFieldNumber, _, n, err := p.ConsumeTagWithoutMove()
-				if err != nil {
-					return 0, err
-				}
-				if elementFieldNumber != fieldNumber {
-					break
-				}
-				if cnt < idx {
-					p.Read += n
-				}
-				result = p.Read + n
-			}
+		// the idx-th element exists only if there are bytes left in the packed block
+		if cnt < idx || p.Read >= start+length {
+			return p.Read, errNotFound
 		}
-
+		return p.Read, nil
 	}
 
-	if cnt < idx {
-		return p.Read, errNotFound
+	// unpacked list: [tag][(length)][value][tag][(length)][value]...
+	// the tag of element 0 has been consumed by the caller: step back, so that p.Read always stays on a tag
+	tagLen := protowire.SizeVarint(uint64(fieldNumber) << 3)
+	p.Read -= tagLen
+	for {
+		if cnt == idx {
+			return p.Read + tagLen, nil
+		}
+		p.Read += tagLen
+		if err := p.Skip(elementWireType, false); err != nil {
+			return 0, errNode(meta.ErrRead, "searchIndex: skip unpacked list element error.", err)
+		}
+		cnt++
+		if p.Read >= len(p.Buf) {
+			return p.Read, errNotFound
+		}
+		elementFieldNumber, _, _, err := p.ConsumeTagWithoutMove()
+		if err != nil {
+			return 0, err
+		}
+		if elementFieldNumber != fieldNumber {
+			return p.Read, errNotFound
+		}
 	}
-
-	return result, nil
 }
 
 // searchIntKey in MAP Node
